@@ -6,12 +6,18 @@ use std::sync::atomic::{AtomicU64, Ordering};
 use std::sync::{Arc, Mutex};
 
 static EVENTS: Mutex<Vec<MarketEvent>> = Mutex::new(Vec::new());
+/// a market that never comes to rest (a worker spinning on it) must not exhaust memory: later events are dropped (the
+/// run is then reported as hung by its driver anyway)
+const MAX_EVENTS: usize = 300_000;
 
 /// Start capturing market events (process-wide; capture runs must not overlap).
 pub fn start_capture() {
     EVENTS.lock().unwrap().clear();
     verif::set_tracer(Some(Arc::new(|e: MarketEvent| {
-        EVENTS.lock().unwrap().push(e);
+        let mut evs = EVENTS.lock().unwrap();
+        if evs.len() < MAX_EVENTS {
+            evs.push(e);
+        }
     })));
 }
 
